@@ -488,6 +488,25 @@ class Gen:
             rail = self.r.wpick([("", 3), (m.rails.get(n, ""), 2), (self.fresh_rail(m), 2)])
         return {"op": "change_comp", "name": n, "comp": spec, "group": self.group(), "rail": rail}
 
+    def ops_rail_handover(self, m):
+        """A mux input loses its rail name, and another component takes that
+        name over (legal: rail names only have to be unique at any one time)."""
+        mux = m.mux()
+        if mux is None:
+            return []
+        railed = [i for i in m.parents[mux] if m.rails.get(i)]
+        if not railed:
+            return []
+        x = self.r.pick(railed)
+        r = m.rails[x]
+        spec = copy.deepcopy(m.comps[x])
+        ops = [{"op": "change_comp", "name": x, "comp": spec, "group": m.groups[x], "rail": ""}]
+        hosts = [n for n in self.nonload(m) if n != x and not m.rails.get(n) and n != mux]
+        if hosts and self.r.chance(0.8):
+            y = self.r.pick(hosts)
+            ops.append({"op": "change_comp", "name": y, "comp": copy.deepcopy(m.comps[y]), "group": m.groups[y], "rail": r})
+        return ops
+
     def op_move(self, m):
         """Move a leaf under another parent: delete it and add it again (the
         component count is the same before and after)."""
